@@ -71,7 +71,7 @@ Proof. unfold hyp_readb. intros H.
 Theorem hyp_filterb_sound c pid l want : hyp_filterb c pid l = true -> want <> [] ->
   filter_pmt_packets (ser_items pid true l) want =
   Ok (let missing := missing_of (map epid (sstreams (sec c))) pid want in
-      if len missing =? len want then (None, Some missing)
+      if none_present (map epid (sstreams (sec c))) pid want then (None, Some missing)
       else (Some (spec_repack (hdrs_of pid true l)
                     (ser_unit {| pf := pf c; pre := []; sec := filtered_sec (sec c) want; stuffing := 0 |})),
             match missing with [] => None | _ => Some missing end)).
